@@ -492,6 +492,60 @@ REPLAY_SCRIPT = textwrap.dedent(
                 snap = snapshot(d)
                 if snap.get("t.txt") != b"OLD" or len(snap) != 1:
                     bad.append(("staged_write", mk.__name__, "%s inside the block -> %s" % (exc.__name__, sorted(snap))))
+    # process death (os._exit in a child) right before / right after the rename, and while the value is being written
+    import subprocess
+    import textwrap
+    CHILD = textwrap.dedent("""
+    import os, sys, builtins
+    import uberjob.stores._file_store as fsmod
+    from uberjob.stores import JsonFileStore, PickleFileStore, TextFileStore, BinaryFileStore
+    cls = {"json": JsonFileStore, "pickle": PickleFileStore, "text": TextFileStore, "binary": BinaryFileStore}[sys.argv[1]]
+    point, path = sys.argv[2], sys.argv[3]
+    real_replace = os.replace
+    def replace(a, b):
+        if point == "before-rename": os._exit(0)
+        real_replace(a, b)
+        if point == "after-rename": os._exit(0)
+    fsmod.os.replace = replace
+    if point == "while-writing":
+        real_open = builtins.open
+        def fopen(p, *a, **k):
+            f = real_open(p, *a, **k)
+            if str(p).endswith(".STAGING"):
+                class W:
+                    def __enter__(s): return s
+                    def __exit__(s, *e): f.close()
+                    def write(s, x): f.write(x[:1]); f.flush(); os._exit(0)
+                    def __getattr__(s, n): return getattr(f, n)
+                return W()
+            return f
+        fsmod.open = fopen
+    new = {"json": {"k": [1, 2, 3] * 50}, "pickle": list(range(200)), "text": "new" * 100, "binary": b"new" * 100}[sys.argv[1]]
+    cls(path).write(new)
+    """)
+    for kind, old, new in (("json", b'"old"', None), ("pickle", None, None), ("text", b"old", ("new" * 100).encode()), ("binary", b"old", b"new" * 100)):
+        for point in ("before-rename", "after-rename", "while-writing"):
+            with tempfile.TemporaryDirectory() as d:
+                t = os.path.join(d, "t")
+                if old is not None: open(t, "wb").write(old)
+                else:
+                    import pickle as _p
+                    old = _p.dumps("old"); open(t, "wb").write(old)
+                os.utime(t, (1000, 1000)); m0 = os.stat(t).st_mtime_ns
+                subprocess.run([sys.executable, "-c", CHILD, kind, point, t], env=dict(os.environ), timeout=60)
+                cur = open(t, "rb").read(); m1 = os.stat(t).st_mtime_ns
+                if point == "after-rename":
+                    ok = cur != old and m1 != m0 and (new is None or cur == new)
+                    if kind == "json": ok = ok and json.loads(cur) == {"k": [1, 2, 3] * 50}
+                    if kind == "pickle": ok = ok and pickle.loads(cur) == list(range(200))
+                else:
+                    ok = cur == old and m1 == m0
+                if not ok: bad.append((kind, "process death " + point, "target holds %r... mtime changed: %s" % (cur[:20], m1 != m0)))
+                # a staging file left by the killed process must not disturb the next write / read
+                cls2 = {"json": JsonFileStore, "pickle": PickleFileStore, "text": TextFileStore, "binary": BinaryFileStore}[kind]
+                v2 = {"json": [7], "pickle": (7,), "text": "seven", "binary": b"seven"}[kind]
+                st = cls2(t); st.write(v2)
+                if st.read() != v2 or os.path.exists(t + ".STAGING"): bad.append((kind, "write after a death " + point, sorted(os.listdir(d))))
     for b in bad[:6]: print("C11 violated:", b)
     sys.exit(1 if bad else 0)
     '''
@@ -509,3 +563,19 @@ def _replay(ob):
 
 
 REPLAYS = [("filestore.*", _replay)]
+
+
+def _c11_bounded(ctx):
+    """bounded: real file stores in a temporary directory: os.replace failing, serialisation errors, I/O errors injected into open / write / close / rename, KeyboardInterrupt / SystemExit in the block, process death (os._exit in a child) before / after the rename and while writing, stale staging file"""
+    r = _replay(None)
+    out = r["detail"]
+    if "Traceback" in out and "C11 violated" not in out:
+        ctx.unsupported("fault-injection probe did not run: " + out[-600:])
+    ctx.check("bounded/fault-probe-ran", True, info=out[-1500:])
+    ctx.check("bounded/target-holds-old-or-complete-new-at-every-injected-fault;no-staging-file-after-an-exception;death-leaves-a-harmless-staging-file", bool(not r["reproduced"]), info=out[-2500:])
+    return "ok"
+
+
+unit("filestore.native-faults[bounded]", props=["C11", "C08"],
+     functions=[(REL, "staged_write_path"), (REL, "staged_write"), (REL, "_try_remove")] + [(STORES[c], f"{c}.write") for c in STORES],
+     assumptions=["bounded stand-in: see the script in contracts/filestore.py (five stores, str / pathlib paths)"], min_obligations=2, kind="bounded")(_c11_bounded)
